@@ -104,6 +104,11 @@ func (server *SugarDB) Flush(database int) {
 		return
 	}
 
+	// If the database has never been used, there is nothing to flush.
+	if server.store[database] == nil {
+		return
+	}
+
 	// Clear db store.
 	clear(server.store[database])
 	// Clear db volatile key tracker.
